@@ -1,6 +1,7 @@
 import StorageModel.C05.Sim
 import StorageModel.C05.SelfW
 import StorageModel.C05.Self
+import StorageModel.C05.SchemaHist
 /-
   C05 — Link collections stay symmetric; ref-counted links agree on both sides.
 
@@ -328,6 +329,304 @@ theorem self_delete_unlinks_reachable (h : List (List (SelfW.SOp K))) {id : K}
     id ∉ SelfW.L (SelfW.sdelete (SelfW.srunHistW ([] : St K) h) id).1 x :=
   (self_delete_unlinks (SelfW.srunHistW_lInv SelfW.lInvW_nil h) hid).2.2.1 x
 
+/-! ## every schema
+
+  Which stores declare which link collections is configuration (`AddLinkCollection` /
+  `AddRefCountedLinkCollection` fill the registries `store.links` / `store.refCountedLinks`, and
+  `DeleteById → processDeleteConstraints → cleanupLinks` walks exactly those registries, for the store
+  and for every registered child store that holds the entity).  C05/Schema.lean is the model
+  parametrised by the schema: two root stores, a child store of each, and ANY list of declared
+  collections — plain or reference-counted between a store of family A and a store of family B
+  (root or child on either end), or self-referential on any of the four stores; so a store may
+  carry no collection, only plain ones, only reference-counted ones, both, several of each.  The
+  theorems below hold for EVERY schema of that family and every history over it. -/
+
+open Schema in
+/-- **Every declared collection of every schema behaves like the two-store model**: after any
+    committed history of store-level (Create / Update / DeleteById on any of the four stores) and
+    collection-level operations, the field buckets of a plain or ref-counted collection are the
+    committed state of a history of C05/Model.lean — so every theorem above about reachable states
+    applies to it.  Inside the vocabulary that history is inside the vocabulary, and not heavier. -/
+theorem schema_collection_is_two_store_model (sc : Schema) (h : List (List (GOp K))) {j : Nat} {c : Coll}
+    (hj : sc.colls[j]? = some c) (hc : ∀ sd ch, c ≠ .self sd ch) :
+    ∃ h' : List (List (Op K)), (grunHist sc (g0 : GSt K) h).slots j = runHist [] h' ∧
+      (GHistVocab h → HistVocab h' ∧ histWeight h' ≤ ghistWeight h) :=
+  slot_reachable sc h hj hc
+
+open Schema in
+/-- consequently every declared plain / ref-counted collection of every schema shows, after every
+    history inside the vocabulary, exactly the two views of ONE relation and ONE count map (the
+    relational spec of C05/Spec.lean run on the collection's own history) -/
+theorem schema_collection_refines_spec (sc : Schema) (h : List (List (GOp K))) (hv : GHistVocab h)
+    (hw : ghistWeight h < 2147483648) {j : Nat} {c : Coll} (hj : sc.colls[j]? = some c) (hc : ∀ sd ch, c ≠ .self sd ch) :
+    ∃ h' : List (List (Op K)),
+      (∀ r, exists? ((grunHist sc (g0 : GSt K) h).slots j) r = Spec.has (srunHist ({} : Spec.SSt K) h') r) ∧
+      (∀ sd id, linksOf ((grunHist sc (g0 : GSt K) h).slots j) (sd, id) = Spec.partners (srunHist ({} : Spec.SSt K) h') sd id) ∧
+      (∀ sd id k, rcOf ((grunHist sc (g0 : GSt K) h).slots j) (sd, id) k = Spec.count (srunHist ({} : Spec.SSt K) h') sd id k) := by
+  obtain ⟨h', e, p⟩ := slot_reachable sc h hj hc
+  refine ⟨h', ?_⟩
+  rw [e]
+  exact model_refines_spec h' (p hv).1 (by have := (p hv).2; omega)
+
+open Schema in
+theorem schema_self_collection_is_self_model (sc : Schema) (h : List (List (GOp K))) {j : Nat} {sd : Side} {ch : Bool}
+    (hj : sc.colls[j]? = some (.self sd ch)) :
+    ∃ h' : List (List (SelfW.SOp K)), (grunHist sc (g0 : GSt K) h).slots j = SelfW.srunHistW [] h' :=
+  self_slot_reachable sc h hj
+
+open Schema in
+/-- the field buckets of a collection exist exactly inside the entity buckets of its two stores,
+    a child-store entity lives inside a root-store entity, a plain collection stores no counts
+    and a ref-counted one no link keys — after every history over every schema -/
+theorem schema_coherent (sc : Schema) (h : List (List (GOp K))) : GInv sc (grunHist sc (g0 : GSt K) h) :=
+  grunHist_ginv (gInv_g0 sc) h
+
+open Schema in
+/-- **symmetry, for every schema and every history**: in every declared plain collection, b is in
+    a's link set iff a is in b's -/
+theorem schema_links_symmetric (sc : Schema) (h : List (List (GOp K))) {j : Nat} {ca cb : Bool}
+    (hj : sc.colls[j]? = some (.plain ca cb)) (a b : K) :
+    b ∈ linksOf ((grunHist sc (g0 : GSt K) h).slots j) (.A, a) ↔
+      a ∈ linksOf ((grunHist sc (g0 : GSt K) h).slots j) (.B, b) := by
+  obtain ⟨h', e, _⟩ := slot_reachable sc h hj (by intro sd ch e; cases e)
+  rw [e]; exact links_symmetric h' a b
+
+open Schema in
+theorem schema_self_links_symmetric (sc : Schema) (h : List (List (GOp K))) {j : Nat} {sd : Side} {ch : Bool}
+    (hj : sc.colls[j]? = some (.self sd ch)) (a b : K) :
+    b ∈ SelfW.L ((grunHist sc (g0 : GSt K) h).slots j) a ↔ a ∈ SelfW.L ((grunHist sc (g0 : GSt K) h).slots j) b := by
+  obtain ⟨h', e⟩ := self_slot_reachable sc h hj
+  rw [e]; exact self_links_symmetric h' a b
+
+open Schema in
+/-- no link of any collection points to an entity that its far-side store does not hold -/
+theorem schema_links_point_to_existing (sc : Schema) (h : List (List (GOp K))) {j : Nat} {ca cb : Bool}
+    (hj : sc.colls[j]? = some (.plain ca cb)) (sd : Side) (a b : K)
+    (hm : b ∈ linksOf ((grunHist sc (g0 : GSt K) h).slots j) (sd, a)) :
+    ∃ y, (Coll.plain ca cb).storeAt sd.other = some y ∧ (grunHist sc (g0 : GSt K) h).ents y b = true := by
+  have hinv := schema_coherent sc h
+  obtain ⟨h', e, _⟩ := slot_reachable sc h hj (by intro sd ch e; cases e)
+  have hex : exists? ((grunHist sc (g0 : GSt K) h).slots j) (sd.other, b) = true := by
+    rw [e] at hm ⊢; exact links_point_to_existing h' sd a b hm
+  rw [hinv.coh j _ hj sd.other b] at hex
+  cases sd <;> exact ⟨_, rfl, hex⟩
+
+open Schema in
+/-- **both sides hold the same positive count, for every schema**: every declared ref-counted
+    collection, every history inside the vocabulary (`SetLinkCount` arguments ≥ 0, total weight < 2^31) -/
+theorem schema_rc_agree (sc : Schema) (h : List (List (GOp K))) (hv : GHistVocab h) (hw : ghistWeight h < 2147483648)
+    {j : Nat} {ca cb : Bool} (hj : sc.colls[j]? = some (.rc ca cb)) (a b : K) :
+    rcOf ((grunHist sc (g0 : GSt K) h).slots j) (.A, a) b = rcOf ((grunHist sc (g0 : GSt K) h).slots j) (.B, b) a ∧
+    ∀ c, rcOf ((grunHist sc (g0 : GSt K) h).slots j) (.A, a) b = some c → 0 < c ∧ c < 2147483648 := by
+  obtain ⟨h', e, p⟩ := slot_reachable sc h hj (by intro sd ch e; cases e)
+  rw [e]; exact rc_agree h' (p hv).1 (by have := (p hv).2; omega) a b
+
+open Schema in
+/-- **set-links leaves exactly the requested set, in every collection of every schema**:
+    `SetLinks` through the collection API on a reachable state, for an entity its store holds and
+    any request list (order, duplicates irrelevant) naming entities the far-side store holds -/
+theorem schema_setlinks_exact (sc : Schema) (h : List (List (GOp K))) {j : Nat} {ca cb : Bool}
+    (hj : sc.colls[j]? = some (.plain ca cb)) {sd : Side} {x y : Store} {id : K} {req : List K}
+    (hx : (Coll.plain ca cb).storeAt sd = some x) (hy : (Coll.plain ca cb).storeAt sd.other = some y)
+    (hid : (grunHist sc (g0 : GSt K) h).ents x id = true)
+    (hall : ∀ k ∈ req, (grunHist sc (g0 : GSt K) h).ents y k = true) :
+    let o := gstep sc (grunHist sc (g0 : GSt K) h) (.link j (.setLinks sd id req))
+    o.err = none ∧ linksOf (o.st.slots j) (sd, id) = dedupK (sortK req) ∧
+      ∀ b, id ∈ linksOf (o.st.slots j) (sd.other, b) ↔ b ∈ req := by
+  have hinv := schema_coherent sc h
+  obtain ⟨h', e, _⟩ := slot_reachable sc h hj (by intro sd ch e; cases e)
+  have hid' : exists? (runHist ([] : St K) h') (sd, id) = true := by
+    rw [← e, hinv.coh j _ hj sd id, hx]; exact hid
+  have hall' : ∀ k ∈ req, exists? (runHist ([] : St K) h') (sd.other, k) = true := by
+    intro k hk; rw [← e, hinv.coh j _ hj sd.other k, hy]; exact hall k hk
+  have := setlinks_exact_reachable h' hid' hall'
+  simp only [gstep, hj, PlainOp.toOp, step, setSlot_same, e]
+  exact this
+
+open Schema in
+/-- **linking to a missing entity fails, in every collection of every schema** -/
+theorem schema_setlinks_missing (sc : Schema) (h : List (List (GOp K))) {j : Nat} {ca cb : Bool}
+    (hj : sc.colls[j]? = some (.plain ca cb)) {sd : Side} {x y : Store} {id : K} {req : List K}
+    (hx : (Coll.plain ca cb).storeAt sd = some x) (hy : (Coll.plain ca cb).storeAt sd.other = some y)
+    (hid : (grunHist sc (g0 : GSt K) h).ents x id = true)
+    (hmiss : ∃ k ∈ req, (grunHist sc (g0 : GSt K) h).ents y k = false) :
+    (gstep sc (grunHist sc (g0 : GSt K) h) (.link j (.setLinks sd id req))).err = some .notFound := by
+  have hinv := schema_coherent sc h
+  obtain ⟨h', e, _⟩ := slot_reachable sc h hj (by intro sd ch e; cases e)
+  have hid' : exists? (runHist ([] : St K) h') (sd, id) = true := by
+    rw [← e, hinv.coh j _ hj sd id, hx]; exact hid
+  have hmiss' : ∃ k ∈ req, exists? (runHist ([] : St K) h') (sd.other, k) = false := by
+    obtain ⟨k, hk, hm⟩ := hmiss
+    exact ⟨k, hk, by rw [← e, hinv.coh j _ hj sd.other k, hy]; exact hm⟩
+  have := setlinks_missing (runHist_lInv lInv_nil h') hid' hmiss'
+  simp only [gstep, hj, PlainOp.toOp, step, e]
+  exact this
+
+/-- in a plain or ref-counted collection the side-`s` store belongs to family `s` -/
+theorem Schema.storeAt_side {c : Schema.Coll} (hc : ∀ sd ch, c ≠ .self sd ch) {s : Side} {y : Schema.Store}
+    (h : c.storeAt s = some y) : y.side = s := by
+  cases c with
+  | self sd ch => exact absurd rfl (hc sd ch)
+  | plain ca cb => cases s <;> simp [Schema.Coll.storeAt] at h <;> rw [← h]
+  | rc ca cb => cases s <;> simp [Schema.Coll.storeAt] at h <;> rw [← h]
+
+theorem Schema.rcInv_of_noRc {s : St K} (h : Schema.NoRc s) : RcInv s 0 :=
+  ⟨fun sd a b => by rw [h, h], fun r k c hc => by rw [h] at hc; cases hc⟩
+
+theorem Schema.lInv_of_noLinks {s : St K} (h : Schema.NoLinks s) : LInv s :=
+  ⟨fun sd a b => by rw [h, h]; simp, fun r => by rw [h]; exact List.Pairwise.nil⟩
+
+open Schema in
+/-- `DeleteById` in a coherent state whose collections satisfy their invariants -/
+theorem Schema.gdelete_unlinks {sc : Schema} {g : GSt K} (hinv : GInv sc g)
+    (hl : ∀ j ca cb, sc.colls[j]? = some (.plain ca cb) → LInv (g.slots j))
+    (hs : ∀ j sd ch, sc.colls[j]? = some (.self sd ch) → SelfW.LInvW (g.slots j))
+    (x : Store) (id : K) (hok : (gdelete sc g x id).2 = none) :
+    (∀ ch, (gdelete sc g x id).1.ents ⟨x.side, ch⟩ id = false) ∧
+    (∀ j ca cb, sc.colls[j]? = some (.plain ca cb) → ∀ y, id ∉ linksOf ((gdelete sc g x id).1.slots j) (x.side.other, y)) ∧
+    (∀ j ca cb, sc.colls[j]? = some (.rc ca cb) → (∃ w, RcInv (g.slots j) w) →
+      ∀ y, rcOf ((gdelete sc g x id).1.slots j) (x.side.other, y) id = none) ∧
+    (∀ j ch, sc.colls[j]? = some (.self x.side ch) → ∀ y, id ∉ SelfW.L ((gdelete sc g x id).1.slots j) y) := by
+  have hgd := (gdelete_success hok).2
+  refine ⟨?_, ?_, ?_, ?_⟩
+  · intro ch; rw [hgd]; simp [dropEntity]
+  · intro j ca cb hj y hm
+    have hnself : ∀ sd ch, Coll.plain ca cb ≠ .self sd ch := by intro sd ch e; cases e
+    rcases gdelete_slot hinv x id hok hj with ⟨hf, _⟩ | ⟨s, y', hys, hsy, hcase⟩
+    · exact absurd (by cases x.side <;> rfl) ((famSide_eq_none_iff _ _).mp hf x.side (match x.side with | .A => ca | .B => cb))
+    · have hst := (sideOf_eq_some_iff _ _ _).mp hsy
+      have hside : s = x.side := by rw [← Schema.storeAt_side hnself hst, hys]
+      subst hside
+      have hL := hl j ca cb hj
+      rcases hcase with ⟨hy, e⟩ | ⟨hy, e⟩
+      · rw [e] at hm
+        have := (hL.sym x.side.other y id).mp hm
+        rw [Side.other_other] at this
+        have hex := exists_of_mem_linksOf this
+        rw [coh_at hinv hj hsy] at hex
+        rw [hy] at hex; cases hex
+      · have hex : exists? (g.slots j) (x.side, id) = true := by rw [coh_at hinv hj hsy]; exact hy
+        have hde := deleteEntity_plain (hinv.noRc j ca cb hj) hex
+        have hsl : (gdelete sc g x id).1.slots j = (deleteEntity (g.slots j) x.side id).1 := by
+          rw [e, hde]; simp [cleanupSlot, hsy]
+        rw [hsl] at hm
+        exact (delete_unlinks hL (Schema.rcInv_of_noRc (hinv.noRc j ca cb hj)) hex).2.2.2.1 y hm
+  · intro j ca cb hj hrj y
+    have hnself : ∀ sd ch, Coll.rc ca cb ≠ .self sd ch := by intro sd ch e; cases e
+    obtain ⟨w, hR⟩ := hrj
+    rcases gdelete_slot hinv x id hok hj with ⟨hf, _⟩ | ⟨s, y', hys, hsy, hcase⟩
+    · exact absurd (by cases x.side <;> rfl) ((famSide_eq_none_iff _ _).mp hf x.side (match x.side with | .A => ca | .B => cb))
+    · have hst := (sideOf_eq_some_iff _ _ _).mp hsy
+      have hside : s = x.side := by rw [← Schema.storeAt_side hnself hst, hys]
+      subst hside
+      rcases hcase with ⟨hy, e⟩ | ⟨hy, e⟩
+      · rw [e, hR.1 x.side.other y id, Side.other_other]
+        apply rcOf_of_not_exists
+        rw [coh_at hinv hj hsy]; exact hy
+      · have hex : exists? (g.slots j) (x.side, id) = true := by rw [coh_at hinv hj hsy]; exact hy
+        have hde := deleteEntity_rc (hinv.noLinks j ca cb hj) hex
+        have hsl : (gdelete sc g x id).1.slots j = (deleteEntity (g.slots j) x.side id).1 := by
+          rw [e, hde]; simp [cleanupSlot, hsy]
+        rw [hsl]
+        exact ((delete_unlinks (Schema.lInv_of_noLinks (hinv.noLinks j ca cb hj)) hR hex).2.2.2.2.1 y).1
+  · intro j ch hj y hm
+    have hW := hs j x.side ch hj
+    rcases gdelete_slot hinv x id hok hj with ⟨hf, _⟩ | ⟨s, y', hys, hsy, hcase⟩
+    · exact absurd rfl ((famSide_eq_none_iff _ _).mp hf .A ch)
+    · have hst := (sideOf_eq_some_iff _ _ _).mp hsy
+      have hs' : s = .A := by
+        cases s with
+        | A => rfl
+        | B => simp [Coll.storeAt] at hst
+      subst hs'
+      rcases hcase with ⟨hy, e⟩ | ⟨hy, e⟩
+      · rw [e] at hm
+        have := (hW.sym y id).mp hm
+        have hex := exists_of_mem_linksOf this
+        rw [coh_at hinv hj hsy] at hex
+        rw [hy] at hex; cases hex
+      · have hex : exists? (g.slots j) (SelfW.R id) = true := by rw [coh_at hinv hj hsy]; exact hy
+        obtain ⟨en, hen, _⟩ := get_of_exists hex
+        have hsl : (gdelete sc g x id).1.slots j = (SelfW.sdelete (g.slots j) id).1 := by
+          rw [e]; simp [cleanupSlot, hsy, SelfW.sdelete, hen]
+        rw [hsl] at hm
+        exact (self_delete_unlinks hW hex).2.2.1 y hm
+
+open Schema in
+/-- **`DeleteById` succeeds exactly when** the root store of the family holds the id — for every
+    schema, also when the family's child store is EXTENDED, declares link collections and the entity
+    has no extension data (before fix c784f90 that delete failed with `getFieldBucket`'s
+    "… not found with id …") -/
+theorem schema_delete_succeeds_iff (sc : Schema) (g : GSt K) (x : Store) (id : K) :
+    (gdelete sc g x id).2 = none ↔ g.ents ⟨x.side, false⟩ id = true :=
+  gdelete_succeeds_iff sc g x id
+
+open Schema in
+/-- a failing `DeleteById` changes nothing (even before the rollback) -/
+theorem schema_delete_failure_changes_nothing {sc : Schema} {g : GSt K} {x : Store} {id : K} {e : Err}
+    (h : (gdelete sc g x id).2 = some e) : (gdelete sc g x id).1 = g := (gdelete_failure h).1
+
+open Schema in
+/-- **The link disappears from both sides when either entity is deleted — for every schema.**
+    After any history, `DeleteById` of an entity the root store holds, through ANY store of its family
+    (root store or child store, plain or extended), succeeds and leaves no store of the family
+    holding the id, and no link set of any
+    declared plain collection (whether registered on the root store or on the child store, and
+    whatever else the stores declare or do not declare) and no link set of a self-referential
+    collection of the family mentions the id … -/
+theorem schema_delete_unlinks (sc : Schema) (h : List (List (GOp K))) (x : Store) (id : K)
+    (hid : (grunHist sc (g0 : GSt K) h).ents ⟨x.side, false⟩ id = true) :
+    let g' := (gdelete sc (grunHist sc (g0 : GSt K) h) x id).1
+    (gdelete sc (grunHist sc (g0 : GSt K) h) x id).2 = none ∧
+    (∀ ch, g'.ents ⟨x.side, ch⟩ id = false) ∧
+    (∀ j ca cb, sc.colls[j]? = some (.plain ca cb) → ∀ y, id ∉ linksOf (g'.slots j) (x.side.other, y)) ∧
+    (∀ j ch, sc.colls[j]? = some (.self x.side ch) → ∀ y, id ∉ SelfW.L (g'.slots j) y) := by
+  have hinv := schema_coherent sc h
+  have hl : ∀ j ca cb, sc.colls[j]? = some (.plain ca cb) → LInv ((grunHist sc (g0 : GSt K) h).slots j) := by
+    intro j ca cb hj
+    obtain ⟨h', e, _⟩ := slot_reachable sc h hj (by intro sd ch e; cases e)
+    rw [e]; exact runHist_lInv lInv_nil h'
+  have hs : ∀ j sd ch, sc.colls[j]? = some (.self sd ch) → SelfW.LInvW ((grunHist sc (g0 : GSt K) h).slots j) := by
+    intro j sd ch hj
+    obtain ⟨h', e⟩ := self_slot_reachable sc h hj
+    rw [e]; exact SelfW.srunHistW_lInv SelfW.lInvW_nil h'
+  have hok := (gdelete_succeeds_iff sc _ x id).mpr hid
+  obtain ⟨b, c, _, d⟩ := Schema.gdelete_unlinks hinv hl hs x id hok
+  exact ⟨hok, b, c, d⟩
+
+open Schema in
+/-- … and, inside the vocabulary, no count map of any declared reference-counted collection holds a
+    count for the id any more: the deleted entity's store may have reference-counted collections
+    only (no plain one), plain ones only, both, several, on the root or on the child store. -/
+theorem schema_delete_unlinks_rc (sc : Schema) (h : List (List (GOp K))) (hv : GHistVocab h)
+    (hw : ghistWeight h < 2147483648) (x : Store) (id : K)
+    (hid : (grunHist sc (g0 : GSt K) h).ents ⟨x.side, false⟩ id = true) {j : Nat} {ca cb : Bool}
+    (hj : sc.colls[j]? = some (.rc ca cb)) (y : K) :
+    rcOf ((gdelete sc (grunHist sc (g0 : GSt K) h) x id).1.slots j) (x.side.other, y) id = none ∧
+    rcOf ((gdelete sc (grunHist sc (g0 : GSt K) h) x id).1.slots j) (x.side, id) y = none := by
+  have hinv := schema_coherent sc h
+  have hl : ∀ j ca cb, sc.colls[j]? = some (.plain ca cb) → LInv ((grunHist sc (g0 : GSt K) h).slots j) := by
+    intro j ca cb hj
+    obtain ⟨h', e, _⟩ := slot_reachable sc h hj (by intro sd ch e; cases e)
+    rw [e]; exact runHist_lInv lInv_nil h'
+  have hs : ∀ j sd ch, sc.colls[j]? = some (.self sd ch) → SelfW.LInvW ((grunHist sc (g0 : GSt K) h).slots j) := by
+    intro j sd ch hj
+    obtain ⟨h', e⟩ := self_slot_reachable sc h hj
+    rw [e]; exact SelfW.srunHistW_lInv SelfW.lInvW_nil h'
+  have hr : ∃ w, RcInv ((grunHist sc (g0 : GSt K) h).slots j) w := by
+    obtain ⟨h', e, p⟩ := slot_reachable sc h hj (by intro sd ch e; cases e)
+    rw [e]
+    exact ⟨_, runHist_rcInv (rcInv_nil (K := K) 0) (Int.le_refl 0) h' (p hv).1 (by have := (p hv).2; omega)⟩
+  have hok := (gdelete_succeeds_iff sc _ x id).mpr hid
+  obtain ⟨hgone, _, d, _⟩ := Schema.gdelete_unlinks hinv hl hs x id hok
+  refine ⟨d j ca cb hj hr y, ?_⟩
+  -- the entity's own bucket is gone
+  have hinv' := (gdelete_ok hinv x id hok).1
+  apply rcOf_of_not_exists
+  rw [hinv'.coh j _ hj x.side id]
+  obtain ⟨xs, xc⟩ := x
+  cases xs <;> simp only [Coll.storeAt] <;> first | exact hgone ca | exact hgone cb
+
 end
 
 /-! ## non-vacuity: concrete states and histories (keys = Nat) -/
@@ -373,6 +672,85 @@ example : SelfW.L (SelfW.ssetLinks (SelfW.srunHistW [] selfHist) 2 [2, 3, 2]).1 
 example : Self.linksOf (Self.runHist false {} Self.witness) 2 = [1] ∧
     Self.mget (Self.runHist false {} Self.witness).ents 1 = none := by decide
 
+/-! ### schemas -/
+
+open Schema in
+/-- a schema whose two stores are related ONLY through a ref-counted collection (no store has a
+    plain collection) -/
+def rcOnly : Schema := { colls := [.rc false false] }
+
+open Schema in
+def rcOnlyHist : List (List (GOp Nat)) :=
+  [[.create ⟨.A, false⟩ 1 false none, .create ⟨.B, false⟩ 7 false none, .count 0 (.setCount .A 1 7 3)],
+   [.count 0 (.incr .B 7 1)]]
+
+open Schema in
+example : rcOf ((grunHist rcOnly g0 rcOnlyHist).slots 0) (.B, 7) 1 = some 4 ∧
+    (grunHist rcOnly g0 rcOnlyHist).ents ⟨.A, false⟩ 1 = true := by decide
+open Schema in
+example : (gdelete rcOnly (grunHist rcOnly g0 rcOnlyHist) ⟨.A, false⟩ 1).2 = none ∧
+    rcOf ((gdelete rcOnly (grunHist rcOnly g0 rcOnlyHist) ⟨.A, false⟩ 1).1.slots 0) (.B, 7) 1 = none := by decide
+open Schema in
+example : GHistVocab rcOnlyHist ∧ ghistWeight rcOnlyHist < 2147483648 := by
+  refine ⟨?_, by decide⟩
+  intro tx htx op hop
+  simp only [rcOnlyHist, List.mem_cons, List.mem_nil_iff, or_false] at htx
+  rcases htx with rfl | rfl <;> simp only [List.mem_cons, List.mem_nil_iff, or_false] at hop
+  · rcases hop with rfl | rfl | rfl <;> simp [GOpVocab, RcOp.toOp, OpVocab]
+  · subst hop; simp [GOpVocab, RcOp.toOp, OpVocab]
+
+open Schema in
+/-- a schema with a collection declared on the CHILD store of A (slot 0), one on the root stores
+    (slot 1), a ref-counted one between the child of A and the child of B (slot 2) and a
+    self-referential one on B (slot 3) -/
+def mixed : Schema := { colls := [.plain true false, .plain false false, .rc true true, .self .B false] }
+
+open Schema in
+def mixedHist : List (List (GOp Nat)) :=
+  [[.create ⟨.A, true⟩ 1 false none, .create ⟨.B, true⟩ 7 false none, .create ⟨.B, false⟩ 8 false (some (3, [7, 8]))],
+   [.link 0 (.addLinks .A 1 [8, 7]), .link 1 (.addLink .B 7 1), .count 2 (.incr .A 1 7)],
+   [.create ⟨.A, false⟩ 2 false none, .link 0 (.addLinks .A 2 [7])]]
+
+open Schema in
+example : linksOf ((grunHist mixed g0 mixedHist).slots 0) (.B, 7) = [1] ∧
+    linksOf ((grunHist mixed g0 mixedHist).slots 1) (.A, 1) = [7] ∧
+    rcOf ((grunHist mixed g0 mixedHist).slots 2) (.B, 7) 1 = some 1 ∧
+    SelfW.L ((grunHist mixed g0 mixedHist).slots 3) 7 = [8] := by decide
+open Schema in
+/-- the third transaction failed (entity 2 is not held by the child store): rolled back -/
+example : (grunHist mixed g0 mixedHist).ents ⟨.A, false⟩ 2 = false := by decide
+open Schema in
+/-- `DeleteById` through the ROOT store of A cleans the child store's collections too -/
+example : let g' := (gdelete mixed (grunHist mixed g0 mixedHist) ⟨.A, false⟩ 1).1
+    linksOf (g'.slots 0) (.B, 7) = [] ∧ linksOf (g'.slots 0) (.B, 8) = [] ∧ linksOf (g'.slots 1) (.B, 7) = [] ∧
+    rcOf (g'.slots 2) (.B, 7) 1 = none ∧ g'.ents ⟨.A, true⟩ 1 = false := by decide
+open Schema in
+/-- deleting B.7 through the child store of B; B.8 keeps its link to itself -/
+example : let g' := (gdelete mixed (grunHist mixed g0 mixedHist) ⟨.B, true⟩ 7).1
+    linksOf (g'.slots 0) (.A, 1) = [8] ∧ linksOf (g'.slots 1) (.A, 1) = [] ∧ rcOf (g'.slots 2) (.A, 1) 7 = none ∧
+    SelfW.L (g'.slots 3) 8 = [8] := by decide
+
+open Schema in
+/-- Extended child store with link collections (found by this check, repaired by c784f90): the child
+    store of A is extended and declares collection 0; entity 1 is created through the ROOT store (no
+    extension data) or through the child store, entity 7 in B and linked with 1 through the
+    ref-counted collection 1 of the root stores.  `DeleteById(1)` succeeds through the root store as
+    well as through the child store, and the count disappears from B.7. -/
+def extSchema (ext : Bool) : Schema := { colls := [.plain true false, .rc false false], ext := fun sd => ext && sd == .A }
+
+open Schema in
+def extHist (x : Store) : List (List (GOp Nat)) :=
+  [[.create x 1 false none, .create ⟨.B, false⟩ 7 false none, .count 1 (.incr .A 1 7)]]
+
+open Schema in
+example : (gdelete (extSchema true) (grunHist (extSchema true) g0 (extHist ⟨.A, false⟩)) ⟨.A, false⟩ 1).2 = none ∧
+    (gdelete (extSchema true) (grunHist (extSchema true) g0 (extHist ⟨.A, false⟩)) ⟨.A, true⟩ 1).2 = none ∧
+    (gdelete (extSchema true) (grunHist (extSchema true) g0 (extHist ⟨.A, true⟩)) ⟨.A, false⟩ 1).2 = none := by decide
+open Schema in
+example : rcOf ((grunHist (extSchema true) g0 (extHist ⟨.A, false⟩)).slots 1) (.B, 7) 1 = some 1 ∧
+    rcOf ((gdelete (extSchema true) (grunHist (extSchema true) g0 (extHist ⟨.A, false⟩)) ⟨.A, true⟩ 1).1.slots 1) (.B, 7) 1 = none ∧
+    (gdelete (extSchema true) (grunHist (extSchema true) g0 (extHist ⟨.A, false⟩)) ⟨.A, true⟩ 1).1.ents ⟨.A, false⟩ 1 = false := by decide
+
 end StorageModel.Properties.C05
 
 #print axioms StorageModel.Properties.C05.links_symmetric
@@ -385,3 +763,13 @@ end StorageModel.Properties.C05
 #print axioms StorageModel.Properties.C05.self_links_symmetric
 #print axioms StorageModel.Properties.C05.self_setlinks_exact
 #print axioms StorageModel.Properties.C05.self_delete_unlinks
+#print axioms StorageModel.Properties.C05.schema_collection_is_two_store_model
+#print axioms StorageModel.Properties.C05.schema_self_collection_is_self_model
+#print axioms StorageModel.Properties.C05.schema_coherent
+#print axioms StorageModel.Properties.C05.schema_links_symmetric
+#print axioms StorageModel.Properties.C05.schema_rc_agree
+#print axioms StorageModel.Properties.C05.schema_setlinks_exact
+#print axioms StorageModel.Properties.C05.schema_delete_unlinks
+#print axioms StorageModel.Properties.C05.schema_delete_unlinks_rc
+#print axioms StorageModel.Properties.C05.schema_delete_succeeds_iff
+#print axioms StorageModel.Properties.C05.schema_collection_refines_spec
